@@ -70,7 +70,7 @@ pub fn conv(s: &SymbolicBDD) -> Option<Ast> {
         SymbolicBDD::Quantifier(q, vs, b) => Ast::Q(match q { QuantifierType::Exists => true, QuantifierType::Forall => false, #[allow(unreachable_patterns)] _ => return None }, vs.iter().map(|v| v.name.as_ref().clone()).collect(), bx(b)?),
         SymbolicBDD::CountableConst(op, l, n) => Ast::CC(conv_cmp(*op)?, list(l)?, n.to_string()),
         SymbolicBDD::CountableVariable(op, l, r) => Ast::CV(conv_cmp(*op)?, list(l)?, list(r)?),
-        SymbolicBDD::FixedPoint(v, g, b) => Ast::Fp(v.name.as_ref().clone(), fp_flag_is_gfp(*g), bx(b)?),
+        SymbolicBDD::FixedPoint(v, g, .., b) => Ast::Fp(v.name.as_ref().clone(), fp_flag_is_gfp(*g), bx(b)?),
         SymbolicBDD::Ite(c, t, e) => Ast::Ite(bx(c)?, bx(t)?, bx(e)?),
         SymbolicBDD::BinaryOp(op, l, r) => Ast::Bin(conv_bin(*op)?, bx(l)?, bx(r)?),
         SymbolicBDD::Subtree(_) => return None,
@@ -95,7 +95,7 @@ pub fn fp_flag_is_gfp(flag: bool) -> bool {
         }
         let probe = guarded(|| {
             let p = ParsedFormula::new(&mut std::io::BufReader::new("gfp X # X".as_bytes()), None).ok()?;
-            let SymbolicBDD::FixedPoint(_, b, _) = &p.bdd else { return None };
+            let SymbolicBDD::FixedPoint(_, b, ..) = &p.bdd else { return None };
             let b = *b;
             rsbdd::verif_hooks::set_fp_fuel(Some(DEFAULT_FUEL));
             let r = p.eval();
